@@ -109,8 +109,8 @@ impl Check for C09 {
             real: &["h3 server Connection (accept / request completion accounting)", "RequestResolver, server RequestStream and its halves, RequestEnd notification channel"],
             stub: &["QUIC transport (SimQuic)", "executor (simexec)", "peer (script)", "application (drawn handling of each request; handle lifetimes tracked by drop guards)"],
             assumptions: &["a request has ended when the application holds no handle of it any more (resolver, stream or either half), whether by drop or by a failing call that consumed it"],
-            quick_runs: 100_000,
-            thorough_runs: 5_000_000,
+            quick_runs: 700_000,
+            thorough_runs: 28_000_000,
         }
     }
     fn run(&self, ctx: &RunCtx) -> RunOut {
